@@ -747,6 +747,32 @@ theorem C17_gen_calc_statsmaps_history_independent (E : GazeOps T G R Shape Sub)
     obtain ⟨r, e2, _, hr⟩ := OptRel.of_some h e1
     rw [e2, ← hr]; rfl
 
+/-- **one `calc_statsmaps` call on an object with ANY consistent history**: it raises exactly when the cache-free reference raises;
+    otherwise it returns the reference's statistics, the pyramid maker it leaves is the one a new object builds for THIS image's channel
+    count, the configured orientations and the current device (`statsMaker`), with `use_l2_foveal_loss` the fovea mask it leaves is the
+    reference's (computed from the level-of-detail map of THIS call), and every sub-cache invariant holds again -/
+theorem C17_gen_calc_statsmaps_one_call (E : GazeOps T G R Shape Sub) (S : StatsOps T R Shape) (cfg : MetamericLossCfg R) (device : Nat)
+    (s : MetamericLossStatsSelf T G R Shape Sub) (hs : StatsInv E s) (image : T) (g : G) (a w d : R) (m : String) (equi : Bool) :
+    OptRel (fun r v => StatsInv E r.1 ∧ r.1.pyramid_maker = statsMaker E cfg.n_orientations device image ∧ r.2.1 = v.1 ∧
+        (cfg.use_l2_foveal_loss = true → r.1.fovea_mask = v.2.1))
+      (metamericLossCalcStatsmapsFullG E S cfg device s image g a w d m equi) (statsRef E S cfg device image g a w d m) := by
+  have h := gen_metamericLossCalcStatsmapsFullG_rel E S cfg device s hs image g a w d m equi
+  cases e1 : statsRef E S cfg device image g a w d m with
+  | none => rw [(OptRel.none_iff h).2 e1]; trivial
+  | some v =>
+    obtain ⟨r, e2, h1, h2, h3, h4⟩ := OptRel.of_some h e1
+    rw [e2]
+    refine ⟨h1, ?_, h3, h4⟩
+    rw [h2]
+    simp only [statsRef, Option.bind_eq_bind] at e1
+    cases hm : statsMaker E cfg.n_orientations device image with
+    | none => simp [hm] at e1
+    | some pm =>
+      simp only [hm, Option.bind_some] at e1
+      cases ht : statsRefTail E S cfg pm image g a w d m with
+      | none => simp [ht] at e1
+      | some t => simp [ht] at e1; rw [← e1]
+
 /-- the same for `MetamericLossUniform.calc_statsmaps` (its only sub-cache is the pyramid maker) -/
 theorem C17_gen_uniform_calc_statsmaps_history_independent (E : GazeOps T G R Shape Sub) (S : StatsOps T R Shape)
     (s : MetamericLossUniformStatsSelf T G R Shape Sub) (hs : UStatsInv s) (calls : List (UStatsCall T R)) :
@@ -794,6 +820,39 @@ theorem C17_gen_metameric_loss_history_independent_full [DecidableEq T] (E : Gaz
   C17_gen_metameric_loss_history_independent (fullOps E S device) cfg _ _ (fun sub => StatsInv E sub.1)
     (fun sub h x g => ⟨(fullStatsCore_spec E S device cfg sub h x g _ _ _ _).1, (fullStatsCore_spec E S device cfg sub h x g _ _ _ _).2.1⟩)
     hext (MetamericLossStatsSelf.init, []) (statsInv_init E) calls hok
+
+/-- **every sub-cache invariant holds after ANY `__call__` list** on the full object: whatever the calls were (sizes, channel counts, gazes,
+    targets, colour spaces), afterwards every blur object of `self.blurs` holds the level-of-detail map a NEW blur object computes for the key
+    it stores, and the pyramid maker is one the method's own constructor call built -/
+theorem C17_gen_metameric_loss_sub_caches_consistent_full [DecidableEq T] (E : GazeOps T G R Shape Sub) (S : StatsOps T R Shape) (device : Nat)
+    (cfg : MetamericLossCfg R) (hext : ∀ a b : T, a = b ↔ (E.shape a = E.shape b ∧ E.allEq b a = true))
+    (calls : List (MLArgs T G)) (hok : ∀ x ∈ calls, E.inputsOk x.image x.target = true)
+    (s' : MetamericLossSelf T G R Shape (MetamericLossStatsSelf T G R Shape Sub × List String)) (vs : List T)
+    (hrun : runSteps (mlStep (fullOps E S device) cfg) (MetamericLossSelf.init (MetamericLossStatsSelf.init, [])) calls = some (s', vs)) :
+    StatsInv E s'.sub.1 := by
+  let EF := fullOps E S device
+  let stats := statsNew E S cfg device cfg.alpha cfg.real_image_width cfg.real_viewing_distance cfg.mode
+  let mask := maskNew E S cfg device cfg.alpha cfg.real_image_width cfg.real_viewing_distance cfg.mode
+  have hcore : ∀ sub : MetamericLossStatsSelf T G R Shape Sub × List String, StatsInv E sub.1 → ∀ x g,
+      StatsInv E (EF.statsCore cfg sub x g cfg.alpha cfg.real_image_width cfg.real_viewing_distance cfg.mode).1.1 ∧
+      (EF.statsCore cfg sub x g cfg.alpha cfg.real_image_width cfg.real_viewing_distance cfg.mode).2 = (stats x g, mask x g) :=
+    fun sub h x g => ⟨(fullStatsCore_spec E S device cfg sub h x g _ _ _ _).1, (fullStatsCore_spec E S device cfg sub h x g _ _ _ _).2.1⟩
+  have step : ∀ s x, (∃ c fm lm sub, s = mlToSelf c fm lm sub ∧ KeyedInv (fun k : G × T => stats k.2 k.1) c ∧ StatsInv E sub.1) →
+      EF.inputsOk x.image x.target = true →
+      ∃ s2, mlStep EF cfg s x = some (s2, mlFresh EF cfg stats mask x) ∧
+        ∃ c fm lm sub, s2 = mlToSelf c fm lm sub ∧ KeyedInv (fun k : G × T => stats k.2 k.1) c ∧ StatsInv E sub.1 := by
+    rintro s x ⟨c, fm, lm, sub, rfl, hc, hs⟩ hx
+    obtain ⟨fm', lm', sub', log, hs', e, _⟩ := gen_metamericLossCallG_eq EF cfg stats mask (fun sub => StatsInv E sub.1) hcore hext c fm lm sub hs x hx
+    obtain ⟨h1, h2⟩ := cacheStep_spec (fun k : G × T => stats k.2 k.1) c hc (mlKey EF cfg x)
+    refine ⟨_, ?_, _, fm', lm', sub', rfl, h1, hs'⟩
+    simp only [mlStep, e, Option.map_some, h2]; rfl
+  obtain ⟨s2, e, c, fm, lm, sub, rfl, _, hs2⟩ := runSteps_of_invariant (mlStep EF cfg) _ (fun x => EF.inputsOk x.image x.target = true)
+    (mlFresh EF cfg stats mask) step calls (MetamericLossSelf.init (MetamericLossStatsSelf.init, []))
+    ⟨none, none, none, (MetamericLossStatsSelf.init, []), rfl, keyedInv_none _, statsInv_init E⟩ hok
+  rw [e] at hrun
+  simp only [Option.some.injEq, Prod.mk.injEq] at hrun
+  rw [← hrun.1]
+  cases c <;> exact hs2
 
 /-- the refresh condition of `MetamericLoss.__call__` on the full object, without `hcore` -/
 theorem C17_gen_metameric_loss_refresh_iff_gaze_or_target_changed_full [DecidableEq T] (E : GazeOps T G R Shape Sub) (S : StatsOps T R Shape)
